@@ -118,14 +118,14 @@ struct Ref { // the statement
     }
 };
 
-enum { EvTick, EvSend, EvFlush, EvEnable, EvSkip };
+enum { EvTick, EvSend, EvFlush, EvEnable, EvSkip, EvReset };
 struct Event {
     int kind;
     u64 arg;
 };
 inline std::string Show(const Event& e) {
-    static const char* n[] = {"Tick", "Send", "Flush", "Enable", "Skip"};
-    return e.kind == EvTick || e.kind == EvFlush || e.kind == EvSend
+    static const char* n[] = {"Tick", "Send", "Flush", "Enable", "Skip", "Reset+SetPeriod"};
+    return e.kind == EvTick || e.kind == EvFlush || e.kind == EvSend || e.kind == EvReset
                ? std::string(n[e.kind])
                : Fmt("%s(%llu)", n[e.kind], (unsigned long long)e.arg);
 }
@@ -184,7 +184,7 @@ struct Engine {
     }
 
     std::vector<Event> Enabled(const BS& s) {
-        std::vector<Event> ev{{EvTick, 0}, {EvSend, 0}, {EvFlush, 0}, {EvEnable, 0}, {EvEnable, 1}};
+        std::vector<Event> ev{{EvTick, 0}, {EvSend, 0}, {EvFlush, 0}, {EvEnable, 0}, {EvEnable, 1}, {EvReset, 0}};
         Load(Concrete(s));
         u64 h = dev.GetMaxSkip();
         if (large) {
@@ -245,6 +245,15 @@ struct Engine {
                 dev.SetTransmitEnable((u16)e.arg);
                 ref.b.enable = (u16)e.arg;
                 break;
+            case EvReset:
+                // Reset from any reached state (words still queued, mid-frame, full): the port is the freshly reset one - nothing
+                // queued, flags empty/not full, disabled, frame clock 0; the period is programmed again so the search stays in
+                // this period's state space
+                dev.Reset();
+                dev.SetTransmitPeriod(s.period);
+                Ref::Flush(ref);
+                ref.b.enable = 0, ref.b.timer = 0;
+                break;
             case EvSkip:
                 dev.Skip(e.arg);
                 if (e.arg <= 64) {
@@ -276,6 +285,47 @@ struct Engine {
                                  Show(e).c_str(), Show(start).c_str(), Show(got).c_str(),
                                  Show(got_obs).c_str(), Show(ref).c_str(), Show(ref_obs).c_str()),
                              Replay(s, e));
+        }
+        if (e.kind == EvReset) {
+            // behavioural probe on the very object that was reset (state the fields above do not show would surface here): the
+            // same short script on it and on a device that was only constructed, reset and given the period
+            auto script = [&]() {
+                dev.SetTransmitEnable(1);
+                for (u16 w = 0; w < 3; ++w)
+                    dev.Send((u16)(0x4000 + w));
+                for (u32 i = 0; i < 2u * std::min<u32>(s.period, 64) + 1; ++i)
+                    dev.Tick();
+                for (u16 w = 0; w < 17; ++w)
+                    dev.Send((u16)(0x5000 + w));
+                dev.Skip(std::min<u64>(dev.GetMaxSkip(), 3 * (u64)s.period));
+            };
+            obs = Obs();
+            std::string bad;
+            try {
+                script();
+            } catch (const Teakra::VerifAssertion& a) {
+                bad = std::string("assertion ") + a.expression;
+            }
+            Full used = Save();
+            Obs used_obs = obs;
+            Full fresh_state = start;
+            fresh_state.q.clear();
+            fresh_state.b = BS{s.period, 0, 0, 1, 0, 0};
+            Load(fresh_state);
+            dev.Reset();
+            dev.SetTransmitPeriod(s.period);
+            obs = Obs();
+            try {
+                script();
+            } catch (const Teakra::VerifAssertion&) {
+            }
+            Full fresh = Save();
+            ++res.evaluations;
+            if (!bad.empty() || !(used == fresh) || !(used_obs == obs))
+                res.AddViolation("c16:reset-probe:" + Cls(s),
+                                 Fmt("after Reset from %s the port behaves differently from a freshly reset one: %s %s %s vs %s %s", Show(start).c_str(),
+                                     bad.c_str(), Show(used).c_str(), Show(used_obs).c_str(), Show(fresh).c_str(), Show(obs).c_str()),
+                                 Replay(s, e));
         }
         if (e.kind == EvSkip && e.arg <= 200000) {
             // horizon never skips over the empty interrupt: k real Ticks must not fire it
@@ -419,7 +469,7 @@ inline void Run(const Args& args, Result& res) {
     res.rule =
         "BFS to fixpoint over a real Teakra::Btdmp per (period, value labelling); state = period, frame "
         "clock, enable, empty/full flags, queue (consecutive sequence numbers, relabelled to start at "
-        "base); events Tick, Send(next), Flush, Enable(0/1), Skip(k) for every k<=min(horizon,2*period+1) (and, where the horizon is unbounded, skips of 9, 17 and 40 periods) "
+        "base); events Tick, Send(next), Flush, Enable(0/1), Reset (followed by programming the period again; state compared with the reset state and a behavioural probe against a fresh port), Skip(k) for every k<=min(horizon,2*period+1) (and, where the horizon is unbounded, skips of 9, 17 and 40 periods) "
         "and k=horizon; every transition compared with the reference FIFO/frame-clock model (frames, "
         "flags, interrupt count, queue content) and Skip(k) with k real Ticks; the port behind CoreTiming (Skip(budget) vs that many Ticks); non-trivial = transition "
         "that changes state or emits a frame/interrupt";
